@@ -192,4 +192,68 @@ theorem exitRel_inv (s s' : CSt) (a : Nat) (c : Con) (v e : Nat) (hi : CInv s) (
     refine cinv_setCon { s with b := b' } a _ hb (fun b x hx => hi.cons b x hx) ?_
     exact conOk_pc c _ hc rfl (by simp)
 
+
+theorem cstep_inv_base (s s' : CSt) (e : Ev) (hi : CInv s) (hs : cstep s (.base e) = some s') : CInv s' := by
+  have generic : ∀ (b' : St), step s.b e = some b' →
+      CInv { s with b := b', ct := if appendsThread e then s.ct ++ [none] else s.ct } := by
+    intro b' hst
+    refine ⟨step_inv s.b e b' hi.base hst, ?_⟩
+    intro a c hc
+    split at hc
+    · exact hi.cons a c (getCon_append_none s b' a c hc)
+    · exact hi.cons a c hc
+  cases e with
+  | invHook a => simp [cstep] at hs
+  | selfRelSwap a => simp [cstep] at hs
+  | probe v e => simp [cstep] at hs
+  | quiesce B => simp [cstep] at hs
+  | addRefCS a =>
+    simp only [cstep] at hs
+    cases hst : step s.b (.addRefCS a) with
+    | none => simp [hst] at hs
+    | some b' =>
+      simp only [hst] at hs
+      have hb := step_inv s.b _ b' hi.base hst
+      cases hc : getCon s a with
+      | none => simp [hc] at hs; subst hs; exact ⟨hb, fun x y hy => hi.cons x y hy⟩
+      | some c =>
+        simp only [hc] at hs
+        split at hs <;> simp at hs
+        subst hs
+        refine cinv_setCon { s with b := b' } a _ hb (fun x y hy => hi.cons x y hy) ?_
+        exact conOk_pc c _ (hi.cons a c hc) rfl (by simp only; by_cases hop : c.op = COp.access <;> simp [hop])
+  | cb it =>
+    cases it with
+    | rel i k seen =>
+      simp only [cstep] at hs
+      cases hst : step s.b (.cb (.rel i k seen)) with
+      | none => simp [hst] at hs
+      | some b' => simp [hst, appendsThread] at hs; subst hs; simpa [appendsThread] using generic b' hst
+    | refcb a vis res v er =>
+      cases vis with
+      | true =>
+        simp only [cstep] at hs
+        cases hst : step s.b (.cb (.refcb a true res v er)) with
+        | none => simp [hst] at hs
+        | some b' => simp [hst, appendsThread] at hs; subst hs; simpa [appendsThread] using generic b' hst
+      | false =>
+        simp only [cstep] at hs
+        cases hst : step s.b (.cb (.refcb a false res v er)) with
+        | none => simp [hst] at hs
+        | some b' =>
+          simp only [hst] at hs
+          have hb := step_inv s.b _ b' hi.base hst
+          cases hc : getCon s a with
+          | none => simp [hc] at hs; subst hs; exact ⟨hb, fun x y hy => hi.cons x y hy⟩
+          | some c =>
+            simp [hc] at hs; subst hs
+            exact cinv_setCon { s with b := b' } a _ hb (fun x y hy => hi.cons x y hy)
+              (conOk_hook c (hi.cons a c hc) _ _ _ _)
+  | _ =>
+    simp only [cstep] at hs
+    split at hs <;> simp at hs
+    subst hs
+    rename_i b' hst
+    exact generic b' hst
+
 end UtilModel.RefCount.Cons
